@@ -439,6 +439,13 @@ class FakeKernel:
 
     # ---- abort injection (sys.settrace)
     def inject_abort(self, file, line, func):
+        h = self.handlers.get(getattr(signal, self.abort_sig))
+        if not callable(h):
+            # Conductor has not installed its handlers yet (interpreter start-up / argument parsing): the moment is
+            # outside what the property speaks about; the injection moves to the next line.
+            if self.abort_at is not None:
+                self.abort_at += 1
+            return
         self.aborted = True
         live = sorted(p for p, s in self.proc.items() if s in ("running", "zombie"))
         self.ev(e="Abort", file=file, line=line, func=func, live=live, in_del=bool(self.in_del),
@@ -532,7 +539,10 @@ def run_cond(scn, root, chooser=None):
     finally:
         sys.stdout, sys.stderr = so, se
     errtxt = ANSI.sub("", err.getvalue())
-    if "Traceback (most recent call last)" in errtxt or status == "EXC":
+    # "Exception ignored in: <finalizer>" reports (printed by CPython, non fatal) are not internal errors
+    fatal_txt = re.sub(r"Exception ignored in:.*?\n(?:Traceback \(most recent call last\):\n(?:[ \t]+.*\n)*)?[A-Za-z_.]+(?:Error|Exception|Abort)[^\n]*\n?",
+                       "", errtxt, flags=re.S)
+    if "Traceback (most recent call last)" in fatal_txt or status == "EXC":
         kind = "Traceback"
     elif "ERROR:" in errtxt:
         kind = "ERROR"
